@@ -201,17 +201,27 @@ def hist_plain(args):
 
 
 def build_block(C, b):
-    """CBlock through its constructor; a declared root the constructor would refuse or replace (wrong /
-    all-zero) is put in place afterwards, as for a block received from the wire"""
+    """A CBlock with the given field values, through public routes only: the constructor when it accepts the
+    declared merkle root as it is; otherwise (a wrong root is refused, an all-zero root is replaced) the block is
+    received from the wire with `CBlock.deserialize`, which does not check the root.  (Deserialisation turns an
+    all-empty witness into no witness; no check depends on the difference.)"""
     h = b['hdr']
     vtx = [txfmt.to_tx(t) for t in b['vtx']]
     try:
         blk = C.CBlock(h['ver'], h['prev'], h['merkle'], h['time'], h['bits'], h['nonce'], vtx)
+        if bytes(blk.hashMerkleRoot) == bytes(h['merkle']):
+            return blk
     except C.CheckBlockError:
-        blk = C.CBlock(h['ver'], h['prev'], ZERO32, h['time'], h['bits'], h['nonce'], vtx)
-    if blk.hashMerkleRoot != h['merkle']:
-        object.__setattr__(blk, 'hashMerkleRoot', h['merkle'])
-    return blk
+        pass
+    raw = ser_header(h) + ser_varint(len(vtx)) + b''.join(t.serialize() for t in vtx)
+    return C.CBlock.deserialize(raw)
+
+
+NOWIT = '-'      # the witness merkle root of a block without witness data: outside the statement, not compared
+
+
+def obj_has_witness(txs):
+    return any(has_witness(txfmt.from_tx(t)) for t in txs)
 
 
 def run_seq(C, bitcoin, a):
@@ -255,7 +265,7 @@ def run_seq(C, bitcoin, a):
             if k == 'mr':
                 return b.calc_merkle_root().hex()
             if k == 'wr':
-                return b.calc_witness_merkle_root().hex()
+                return b.calc_witness_merkle_root().hex() if obj_has_witness(b.vtx) else NOWIT
             if k == 'gw':
                 return str(b.GetWeight())
             if k == 's0':
@@ -308,6 +318,20 @@ def run_seq(C, bitcoin, a):
     finally:
         bitcoin.SelectParams('mainnet')
     return ','.join(outs)
+
+
+def seq_agree(c, io, mo):
+    """step by step; a constructor step that refuses may refuse with any error"""
+    mo = mo.replace('err:py:NoWitnessData', NOWIT)
+    n = int(c['args'][0])
+    steps = c['args'][1 + n:]
+    a, b = io.split(','), mo.split(',')
+    if len(a) != len(b) or len(a) != len(steps):
+        return False
+    for st, x, y in zip(steps, a, b):
+        if x != y and not (st.startswith('ctor:') and x.startswith('err:') and y.startswith('err:')):
+            return False
+    return True
 
 
 def rnd_bytes(rng, n):
@@ -377,7 +401,9 @@ class C15(Prop):
             'CMutableTransaction objects whose GetTxid, GetHash, hash, serialize, calc_weight were called before in-place '
             'edits, observed when built and again after the originals are edited once more, the edited objects themselves '
             'observed through every per-transaction observer; every ordered pair of observers on one block / one '
-            'transaction object and block histories (op c16.seq); non-trivial = every case '
+            'transaction object and block histories (op c16.seq); compared: roots, weights, sizes, "refused" as ok-vs-error '
+            '(never the cached trees, never the error class of a refusal); out-of-domain inputs (empty lists, no witness '
+            'data for the witness root, empty vin/vout, out-of-range mutable fields) are observations only; non-trivial = every case '
             '(no default-constructed object is generated); distinct by canonical request line')
 
     def setup(self):
@@ -412,8 +438,10 @@ class C15(Prop):
         for pat, n in (('none', 3), ('mixed', 4), ('all', 2)):
             txs = self.tx_list(crng, n, pat)
             blocks.append('B=' + txfmt.show_block(dict(hdr=dict(hdr, merkle=ref_root([txid(t) for t in txs])), vtx=txs)))
-        txs = self.tx_list(crng, 3, 'mixed')
-        blocks.append('B=' + txfmt.show_block(dict(hdr=dict(hdr, merkle=dsha(b'wrong')), vtx=txs)))   # wrong root
+        # wrong declared root: such a block exists only as received from the wire, where every witness has one
+        # stack per input (pattern 'all')
+        txs = self.tx_list(crng, 3, 'all')
+        blocks.append('B=' + txfmt.show_block(dict(hdr=dict(hdr, merkle=dsha(b'wrong')), vtx=txs)))
         bobs = ['mr:0', 'wr:0', 'gw:0', 's0:0', 's1:0', 'bh:0', 'ctor:0', 'tid:0:1', 'wid:0:1', 'tw:0:1', 'ts0:0:1',
                 'ts1:0:1', 'tid:0:0', 'wid:0:0']
         for b in blocks:
@@ -470,9 +498,6 @@ class C15(Prop):
                 arg = ','.join(h.hex() for h in v)
                 yield mk('c15.root', arg, tag='root n=%d' % len(v))
                 yield mk('c15.spec.root', arg, tag='spec-root n=%d' % len(v))
-                yield mk('c15.tree', arg, tag='tree n=%d' % len(v))
-        if self._shard == 0:
-            yield mk('c15.tree', '', tag='tree n=0')
 
     def gen_tx_lists(self, rng, big):
         counts = COUNTS + list(range(71, 127, 3)) + [rng.randrange(130, 1025) for _ in range(12)] if big else list(range(1, 71)) + [127, 128, 129, 255, 256, 257, 1023, 1024, 1025]
@@ -486,7 +511,8 @@ class C15(Prop):
                 arg = show_txs(txs)
                 yield mk('c15.merkle', arg, tag='merkle n=%d %s' % (n, pat))
                 yield mk('c15.spec.merkle', arg, tag='spec-merkle n=%d %s' % (n, pat))
-                yield mk('c15.wmerkle', arg, tag='wmerkle n=%d %s' % (n, pat))
+                # (without witness data the statement defines no witness root: an observation only)
+                yield mk('c15.wmerkle', arg, tag='wmerkle n=%d %s' % (n, pat), ood=not any(has_witness(t) for t in txs))
                 if any(has_witness(t) for t in txs):
                     yield mk('c15.spec.wmerkle', arg, tag='spec-wmerkle n=%d %s' % (n, pat))
                 # constructor decision
@@ -519,11 +545,12 @@ class C15(Prop):
         for r in (ZERO32, rnd_bytes(rng, 32)):
             hdr = dict(ver=2, prev=rnd_bytes(rng, 32), merkle=r, time=1, bits=0x207fffff, nonce=0)
             blk = txfmt.show_block(dict(hdr=hdr, vtx=[]))
-            yield mk('c15.ctor', blk, tag='ctor n=0')
+            yield mk('c15.ctor', blk, tag='ctor n=0', ood=True)
             yield mk('c15.bweight', blk, tag='bweight n=0')
             yield mk('c15.spec.bweight', blk, tag='spec-bweight n=0')
-        yield mk('c15.merkle', '', tag='merkle n=0')
-        yield mk('c15.wmerkle', '', tag='wmerkle n=0')
+        # the statement quantifies over NON-EMPTY transaction lists
+        yield mk('c15.merkle', '', tag='merkle n=0', ood=True)
+        yield mk('c15.wmerkle', '', tag='wmerkle n=0', ood=True)
 
     def tx_list(self, rng, n, pat):
         def wit_of(k):
@@ -598,16 +625,16 @@ class C15(Prop):
             t = small_tx(rng, 'none')
             t['vin'] = []
             t['wit'] = wit
-            yield mk('c15.weight', 'i', txfmt.show_tx(t), tag='weight empty vin')
+            yield mk('c15.weight', 'i', txfmt.show_tx(t), tag='weight empty vin', ood=True)
             t = small_tx(rng, 'none')
             t['vout'] = []
             t['wit'] = wit
-            yield mk('c15.weight', 'm', txfmt.show_tx(t), tag='weight empty vout')
+            yield mk('c15.weight', 'm', txfmt.show_tx(t), tag='weight empty vout', ood=True)
         t = small_tx(rng, 'none', nin=1)
         t['wit'] = [[b'\x01'], [b'\x02']]
-        yield mk('c15.weight', 'i', txfmt.show_tx(t), tag='weight more stacks than inputs')
+        yield mk('c15.weight', 'i', txfmt.show_tx(t), tag='weight more stacks than inputs', ood=True)
         t['wit'] = [[], []]
-        yield mk('c15.weight', 'i', txfmt.show_tx(t), tag='weight more (empty) stacks than inputs')
+        yield mk('c15.weight', 'i', txfmt.show_tx(t), tag='weight more (empty) stacks than inputs', ood=True)
 
     # ---- every CompactSize-encoded count / length across its boundaries, for every size observable ----
     def gen_sizes(self, rng, big):
@@ -703,7 +730,9 @@ class C15(Prop):
                         continue
                     t = small_tx(rng, wit, nin=rng.choice([1, 2]), nout=1)
                     for what in ('txid', 'wtxid', 'weight', 'checktx'):
-                        yield mk('c15.oor', what, field, value, txfmt.show_tx(t), tag='oor %s %s=%d %s' % (what, field, value, wit))
+                        in_range = (field, value) in (('lock', 2 ** 32 - 1), ('seq', 2 ** 32 - 1), ('n', 2 ** 32 - 1), ('hash', 32))
+                        yield mk('c15.oor', what, field, value, txfmt.show_tx(t), tag='oor %s %s=%d %s' % (what, field, value, wit),
+                                 ood=not in_range)
 
     # ---- transactions with a history: caches warmed, edited in place, block built, originals edited again --
     def gen_histories(self, rng, big):
@@ -839,18 +868,13 @@ class C15(Prop):
         if op in ('c15.root', 'c15.spec.root'):
             hs = [bytes.fromhex(h) for h in a[0].split(',')] if a[0] else []
             return guarded(lambda: C.CBlock.build_merkle_tree_from_txids(hs)[-1].hex())
-        if op == 'c15.tree':
-            hs = [bytes.fromhex(h) for h in a[0].split(',')] if a[0] else []
-
-            def f():
-                t = C.CBlock.build_merkle_tree_from_txids(hs)
-                return '%d:%s' % (len(t), dsha(b''.join(t)).hex())
-            return guarded(f)
         if op in ('c15.merkle', 'c15.spec.merkle'):
             return guarded(lambda: C.CBlock(vtx=[txfmt.to_tx(t) for t in parse_txs(a[0])]).calc_merkle_root().hex())
         if op in ('c15.wmerkle', 'c15.spec.wmerkle'):
-            return guarded(lambda: C.CBlock(vtx=[txfmt.to_tx(t) for t in parse_txs(a[0])])
-                           .calc_witness_merkle_root().hex())
+            txs = parse_txs(a[0])
+            r = guarded(lambda: C.CBlock(vtx=[txfmt.to_tx(t) for t in txs]).calc_witness_merkle_root().hex())
+            # non-empty list without witness data: whatever the call does (the code raises NoWitnessData) is not compared
+            return r if (not txs or any(has_witness(t) for t in txs)) else NOWIT
         if op in ('c15.ctor', 'c15.spec.ctor'):
             def f():
                 b = txfmt.parse_block(a[0])
@@ -881,11 +905,25 @@ class C15(Prop):
         raise ValueError(op)
 
     def agree(self, c, io, mo):
-        if c['op'] == 'c15.hist':
+        # only what the statement constrains: roots, weights, "refused" (any error) for a wrong declared root; the
+        # witness root of a block WITHOUT witness data is not defined by it (NOWIT on both sides)
+        mo = mo.replace('err:py:NoWitnessData', NOWIT)
+        op = c['op']
+        if op == 'c15.hist':
             # the block observed when built and once more after the originals were edited again (both as the
             # model says), then the transaction objects themselves observed after their first edits
             blockpart, _, txpart = mo.partition('@')
-            return io == blockpart + '#' + blockpart + '@' + txpart
+            ipart, _, itx = io.partition('@')
+            first, _, second = ipart.partition('#')
+            if itx != txpart:
+                return False
+            if blockpart.startswith('err:'):
+                return first.startswith('err:') and second.startswith('err:')
+            return first == blockpart and second == blockpart
+        if op in ('c15.ctor', 'c15.spec.ctor'):
+            return io == mo or (io.startswith('err:') and mo.startswith('err:'))
+        if op == 'c16.seq':
+            return seq_agree(c, io, mo)
         return io == mo
 
     def impl_hist(self, c):
@@ -950,14 +988,10 @@ class C15(Prop):
             for t in blk.vtx:
                 t.GetTxid(), t.GetHash(), hash(t)
             r3 = guarded(lambda: blk.calc_merkle_root().hex())
-            wm = guarded(lambda: blk.calc_witness_merkle_root().hex())
+            wm = guarded(lambda: blk.calc_witness_merkle_root().hex()) if obj_has_witness(blk.vtx) else NOWIT
             out = ['ok:' + blk.hashMerkleRoot.hex(), r1 if r1 == r2 == r3 else 'unstable:%s/%s/%s' % (r1, r2, r3),
                    wm, guarded(lambda: str(blk.GetWeight())),
                    ','.join(guarded(lambda t=t: str(t.calc_weight())) for t in blk.vtx)]
-            if blk.vMerkleTree[-1].hex() != r1:
-                out.append('stored-vMerkleTree-differs')
-            if (blk.vWitnessMerkleTree[-1].hex() if blk.vWitnessMerkleTree else 'err:py:NoWitnessData') != wm:
-                out.append('stored-vWitnessMerkleTree-differs')
             return ';'.join(out)
         o1 = observe()
         if originals is not None:
@@ -977,7 +1011,7 @@ class C15(Prop):
         if op == 'c15.hist':
             yield from self._shrink_hist(c)
             return
-        if op in ('c15.root', 'c15.spec.root', 'c15.tree'):
+        if op in ('c15.root', 'c15.spec.root'):
             hs = a[0].split(',') if a[0] else []
             for k in self._drops(len(hs)):
                 yield mk(op, ','.join(hs[:k[0]] + hs[k[1]:]), tag=tag)
